@@ -31,7 +31,7 @@ class LBandFrameMessage(MessagePayload):
         self.data_payload = bytes()
 
     def pack(self, buffer: Optional[bytes] = None, offset: int = 0, return_buffer: bool = True) -> (bytes, int):
-        values = vars(self)
+        values = dict(vars(self))
         values['user_data_size_bytes'] = len(self.data_payload)
         packed_data = self.LBandFrameMessageConstruct.build(values)
         return PackedDataToBuffer(packed_data, buffer, offset, return_buffer)
